@@ -635,6 +635,12 @@ func runConfig(cfg childCfg, nConv int, replay []conversation) {
 				}
 				if o.Closed {
 					run.Count("closed-by-server", 1)
+				} else if o2 := runConversation(ch, cv); o2.Closed || o2.DialFailed {
+					// confirmed by a second attempt before it counts: the same bytes, sent again to
+					// the same server, were answered / closed in time. The first observation cannot
+					// be told from a starved server process (the canary only watches this one).
+					run.Inconclusive("liveness-not-confirmed-on-second-attempt")
+					run.Count("liveness-candidates-not-confirmed", 1)
 				} else {
 					run.Violation("liveness/connection-neither-answered-nor-closed/"+lastClass(cv, o),
 						fmt.Sprintf("[%s] a hostile connection (seed %s, mutations %v, %d bytes sent, last step %s) was still open %v after its last byte", cfg.Name, cv.Seed, cv.Muts, o.Sent, o.LastKind, closeBound),
